@@ -51,16 +51,49 @@ def all_names():
     return sorted(m), sorted(e)
 
 
+# converter objects keep state between calls (document title, caches): call histories on ONE converter object
+HIST_MENU = ['\\title{}', '\\title{a}', '\\title{\\label{k}}', '\\author{}', '\\date{b}', '\\maketitle',
+             '\\begin{pmatrix}a&b\\end{pmatrix}', '\\pmatrix{a}', '\\begin{equation}a\\end{equation}', '\\equation', '\\align{a}',
+             '\\begin{align}$c$\\end{align}', '\\item[a]', '\\input{x}', '%c']
+HIST_OPTS = [0, 37, 64, 127]
+
+
+def check_histories(first, depth, acc):
+    from pylatexenc.latex2text import LatexNodes2Text
+    n = len(HIST_MENU)
+    for k in range(0, depth):
+        for rest in itertools.product(range(n), repeat=k):
+            hist = (first,) + rest
+            for oi in HIST_OPTS:
+                acc.count('evaluations')
+                acc.count('histories')
+                acc.count('nontrivial')
+                l2t = LatexNodes2Text(**OPTS[oi])
+                for step, i in enumerate(hist):
+                    st, res = run_guarded(l2t.latex_to_text, HIST_MENU[i])
+                    if st != 'ok' or not isinstance(res, str):
+                        sig = dict(kind='hang' if st == 'timeout' else ('exception' if st == 'exc' else 'not-a-string'), via='call-history')
+                        if st == 'exc':
+                            sig['exc'] = type(res).__name__
+                            sig['frame'] = exc_frame(res)
+                        acc.violation(ID, 'hist', dict(history=[HIST_MENU[j] for j in hist], step=step, opt=oi), sig, observed=repr(res)[:300])
+                        break
+            # and all of it in one document
+            doc = ' '.join(HIST_MENU[i] for i in hist)
+            check_input(doc, acc, 'hist-doc')
+
+
 def plan(tier):
     spec = SPECS[tier]
     m, e = all_names()
     shards = [('be', sh) for sh in sweeps.shards(spec)]
     shards += [('macros', i) for i in range(32)] + [('envs', i) for i in range(8)]
+    shards += [('hist', i) for i in range(len(HIST_MENU))]
     return dict(
         shards=shards, bounds=dict(spec, macro_names=len(m), env_names=len(e), option_sets=len(OPTS),
                                    macro_frames=MACRO_FRAMES, env_frames=ENV_FRAMES),
         rule=(sweeps.describe(spec) + '; name sweep: each of the %d macro names of the default walker+text databases in %d '
-              'frames and each of the %d environment names in %d frames; every input x all %d option sets (one evaluation = '
+              'frames and each of the %d environment names in %d frames; every input x all %d option sets; call histories: all sequences of <= 3 (4) calls over a 15-snippet menu (title/author/date/maketitle forms, environment and macro of the same name, math inside a math environment, ...) on ONE converter object under 4 option sets, and the same snippets in one document (one evaluation = '
               'one input with all option sets).  non-trivial = inputs whose tolerant parse contains a macro, environment, '
               'formula or specials node; inputs are distinct by construction.' % (len(m), len(MACRO_FRAMES), len(e), len(ENV_FRAMES), len(OPTS))),
         assumptions=['latex_to_text(s) == nodelist_to_text(tolerant parse of s) as documented; latex_to_text itself is exercised for 8 option sets on every input'],
@@ -109,7 +142,7 @@ def check_input(s, acc, sub, only=None):
             if st2 != 'ok' or not isinstance(res2, str):
                 bad(i, st2, res2, 'latex_to_text')
                 break
-            if res2 != res:
+            if res2 != res and sub != 'hist-doc':      # (documents with \title/\maketitle change converter state between two renderings)
                 acc.violation(ID, sub, dict(s=s, opt=i), dict(kind='latex_to_text-differs-from-documented-equivalent'),
                               observed=repr(res2)[:300], expected=repr(res)[:300])
     acc.outcome(tuple(sorted(outs))[:4])
@@ -121,6 +154,8 @@ def run_shard(shard, tier, acc):
         for s, ctx in sweeps.iter_shard(SPECS[tier], sh):
             check_input(s, acc, sub)
             acc.sample(dict(s=s))
+    elif sub == 'hist':
+        check_histories(sh, 3 if tier == 'quick' else 4, acc)
     elif sub == 'macros':
         m, e = all_names()
         for name in m[sh::32]:
@@ -141,6 +176,19 @@ def run_shard(shard, tier, acc):
 
 def replay(sub, case):
     acc = engine.Acc()
+    if sub == 'hist':
+        from pylatexenc.latex2text import LatexNodes2Text
+        l2t = LatexNodes2Text(**OPTS[case['opt']])
+        for step, doc in enumerate(case['history']):
+            st, res = run_guarded(l2t.latex_to_text, doc)
+            if st != 'ok' or not isinstance(res, str):
+                sig = dict(kind='hang' if st == 'timeout' else ('exception' if st == 'exc' else 'not-a-string'), via='call-history')
+                if st == 'exc':
+                    sig['exc'] = type(res).__name__
+                    sig['frame'] = exc_frame(res)
+                acc.violation(ID, 'hist', case, sig, observed=repr(res)[:300])
+                break
+        return acc.violations
     check_input(case['s'], acc, sub, only=(case['opt'] if case.get('opt', -1) >= 0 else None))
     return acc.violations
 
